@@ -15,6 +15,7 @@ import (
 	"verifharness/internal/rep"
 
 	gconfig "github.com/go-git/go-git/v6/config"
+	"github.com/go-git/go-git/v6/plumbing"
 	fconfig "github.com/go-git/go-git/v6/plumbing/format/config"
 )
 
@@ -192,8 +193,8 @@ func cfgTopTag(tags []string) string {
 func init() { rep.Register("c48", c48) }
 
 func c48(args []string) error {
-	if len(args) < 4 {
-		return fmt.Errorf("usage: c48 cfg_rows.ndjson cfg_wrows.ndjson cfg_bool.ndjson cfg_int.ndjson")
+	if len(args) < 5 {
+		return fmt.Errorf("usage: c48 cfg_rows.ndjson cfg_wrows.ndjson cfg_bool.ndjson cfg_int.ndjson cfg_edit.ndjson")
 	}
 	r := rep.New()
 	rnd := rand.New(rand.NewSource(rep.Seed()))
@@ -210,6 +211,9 @@ func c48(args []string) error {
 		return err
 	}
 	if err := c48Write(r, rnd, args[1], gitOK, gitDir, &gitProcs); err != nil {
+		return err
+	}
+	if err := c48Edit(r, args[4], gitOK, gitDir, &gitProcs); err != nil {
 		return err
 	}
 	r.Extra["git_leg"] = gitOK
@@ -790,5 +794,232 @@ func c48Write(r *rep.Report, rnd *rand.Rand, path string, gitOK bool, gitDir str
 	r.Distinct += len(rows)
 	r.Extra["write_values"] = len(rows)
 	r.Extra["write_cases"] = wcases
+	return nil
+}
+
+// ------------------------------------------------------------------ edit side (load, change, write)
+
+type cfgEditEnt struct {
+	Var, Sp, Val string
+}
+
+type cfgEditRow struct {
+	File []cfgEditEnt
+	Var  string
+	New  []string
+	Want map[string][]string
+}
+
+var cfgEditKeys = map[string]map[string]string{
+	"remote.url":    {"canon": "url", "upper": "URL", "other": "Url"},
+	"remote.fetch":  {"canon": "fetch", "upper": "FETCH", "other": "Fetch"},
+	"url.insteadof": {"canon": "insteadOf", "upper": "INSTEADOF", "other": "insteadof"},
+	"branch.merge":  {"canon": "merge", "upper": "MERGE", "other": "Merge"},
+	"branch.remote": {"canon": "remote", "upper": "REMOTE", "other": "Remote"},
+}
+
+const cfgEditBase = "ssh://git@base.example.com/"
+
+var cfgEditGitKey = map[string]string{
+	"remote.url": "remote.origin.url", "remote.fetch": "remote.origin.fetch", "url.insteadof": "url." + cfgEditBase + ".insteadof",
+	"branch.merge": "branch.b.merge", "branch.remote": "branch.b.remote",
+}
+
+func cfgEditVal(v, id string) string {
+	switch v {
+	case "remote.url":
+		return "https://" + id + ".example.com/r.git"
+	case "remote.fetch":
+		return "+refs/heads/" + id + ":refs/remotes/origin/" + id
+	case "url.insteadof":
+		return "https://" + id + ".mirror.example/"
+	case "branch.merge":
+		return "refs/heads/" + id
+	}
+	return id
+}
+
+func cfgEditVals(v string, ids []string) []string {
+	out := []string{}
+	for _, id := range ids {
+		out = append(out, cfgEditVal(v, id))
+	}
+	return out
+}
+
+func cfgEditRender(row *cfgEditRow) []byte {
+	sect := map[string][]string{}
+	for _, e := range row.File {
+		head := strings.SplitN(e.Var, ".", 2)[0]
+		sect[head] = append(sect[head], fmt.Sprintf("\t%s = %s\n", cfgEditKeys[e.Var][e.Sp], cfgEditVal(e.Var, e.Val)))
+	}
+	var b strings.Builder
+	b.WriteString("[core]\n\trepositoryformatversion = 0\n\tbare = false\n")
+	for _, h := range []struct{ name, header string }{{"remote", "[remote \"origin\"]\n"}, {"url", "[url \"" + cfgEditBase + "\"]\n"}, {"branch", "[branch \"b\"]\n"}} {
+		if len(sect[h.name]) > 0 {
+			b.WriteString(h.header)
+			for _, l := range sect[h.name] {
+				b.WriteString(l)
+			}
+		}
+	}
+	return []byte(b.String())
+}
+
+// what go-git reads for each edit variable
+func cfgEditRead(c *gconfig.Config) map[string][]string {
+	out := map[string][]string{"remote.url": {}, "remote.fetch": {}, "url.insteadof": {}, "branch.merge": {}, "branch.remote": {}}
+	if rc, ok := c.Remotes["origin"]; ok {
+		out["remote.url"] = append(out["remote.url"], rc.URLs...)
+		for _, f := range rc.Fetch {
+			out["remote.fetch"] = append(out["remote.fetch"], string(f))
+		}
+	}
+	for _, u := range c.URLs {
+		if u.Name == cfgEditBase {
+			out["url.insteadof"] = append(out["url.insteadof"], u.InsteadOfs...)
+		}
+	}
+	if br, ok := c.Branches["b"]; ok {
+		if br.Merge != "" {
+			out["branch.merge"] = append(out["branch.merge"], string(br.Merge))
+		}
+		if br.Remote != "" {
+			out["branch.remote"] = append(out["branch.remote"], br.Remote)
+		}
+	}
+	return out
+}
+
+func cfgSameList(a, b []string) bool {
+	if len(a) != len(b) {
+		return false
+	}
+	for i := range a {
+		if a[i] != b[i] {
+			return false
+		}
+	}
+	return true
+}
+
+func c48Edit(r *rep.Report, path string, gitOK bool, gitDir string, gitProcs *int) error {
+	var rows []*cfgEditRow
+	if err := rep.ReadNDJSON(path, func(line []byte) error {
+		row := &cfgEditRow{}
+		if err := json.Unmarshal(line, row); err != nil {
+			return err
+		}
+		rows = append(rows, row)
+		return nil
+	}); err != nil {
+		return err
+	}
+	keyOf := func(row *cfgEditRow) string { b, _ := json.Marshal([]any{row.File, row.Var, row.New}); return string(b) }
+	sort.Slice(rows, func(i, j int) bool { return keyOf(rows[i]) < keyOf(rows[j]) })
+	vars := []string{"remote.url", "remote.fetch", "url.insteadof", "branch.merge", "branch.remote"}
+	for _, row := range rows {
+		r.Eval(1)
+		data := cfgEditRender(row)
+		spell := map[string]bool{}
+		for _, e := range row.File {
+			if e.Var == row.Var {
+				spell[e.Sp] = true
+			}
+		}
+		var sps []string
+		for k := range spell {
+			sps = append(sps, k)
+		}
+		sort.Strings(sps)
+		scen := row.Var + "|old-spelling=" + strings.Join(sps, "+")
+		cs := map[string]any{"file": string(data), "edit": row.Var, "new": row.New, "abstract_file": row.File}
+		c := gconfig.NewConfig()
+		if err := c.Unmarshal(data); err != nil {
+			r.Diverge("Rewrite|load-error|"+scen, fmt.Sprintf("config.Unmarshal of %q failed: %v", string(data), err), cs)
+			continue
+		}
+		// the file as loaded must already read as the spec's GetAll of the file (case-insensitive keys)
+		newVals := cfgEditVals(row.Var, row.New)
+		switch row.Var {
+		case "remote.url":
+			c.Remotes["origin"].URLs = newVals
+		case "remote.fetch":
+			fs := []gconfig.RefSpec{}
+			for _, v := range newVals {
+				fs = append(fs, gconfig.RefSpec(v))
+			}
+			c.Remotes["origin"].Fetch = fs
+		case "url.insteadof":
+			for _, u := range c.URLs {
+				if u.Name == cfgEditBase {
+					u.InsteadOfs = newVals
+				}
+			}
+		case "branch.merge":
+			c.Branches["b"].Merge = plumbing.ReferenceName(newVals[0])
+		case "branch.remote":
+			c.Branches["b"].Remote = newVals[0]
+		}
+		out, err := c.Marshal()
+		if err != nil {
+			r.Diverge("Rewrite|marshal-error|"+scen, fmt.Sprintf("Config.Marshal after editing %s failed: %v", row.Var, err), cs)
+			continue
+		}
+		cs["written"] = string(out)
+		classify := func(v string, got, want []string) string {
+			if v != row.Var {
+				return "other-variable-changed"
+			}
+			if len(got) > len(want) {
+				return "stale-value-kept"
+			}
+			if len(got) < len(want) {
+				return "value-lost"
+			}
+			return "wrong-values"
+		}
+		back := gconfig.NewConfig()
+		if err := back.Unmarshal(out); err != nil {
+			r.Diverge("Rewrite|gogit:own-output-unreadable|"+scen, fmt.Sprintf("go-git cannot read the config it wrote after editing %s: %v", row.Var, err), cs)
+		} else {
+			got := cfgEditRead(back)
+			for _, v := range vars {
+				want := cfgEditVals(v, row.Want[v])
+				if !cfgSameList(got[v], want) {
+					r.Diverge("Rewrite|gogit:"+classify(v, got[v], want)+"|"+scen,
+						fmt.Sprintf("load, set %s = %q, Marshal: go-git reads %s back as %q, spec (replace-all, case-insensitive keys) says %q", row.Var, newVals, v, got[v], want), cs)
+				}
+			}
+		}
+		if gitOK {
+			ents, ok, msg, err := cfgGitList(gitDir, out)
+			if err != nil {
+				return err
+			}
+			*gitProcs++
+			if !ok {
+				r.Diverge("Rewrite|git-rejects-output|"+scen, "git cannot read the config go-git wrote: "+msg, cs)
+				continue
+			}
+			got := map[string][]string{}
+			for _, e := range ents {
+				got[e.Key] = append(got[e.Key], e.Val)
+			}
+			for _, v := range vars {
+				want := cfgEditVals(v, row.Want[v])
+				g := got[cfgEditGitKey[v]]
+				if g == nil {
+					g = []string{}
+				}
+				if !cfgSameList(g, want) {
+					r.Diverge("Rewrite|git:"+classify(v, g, want)+"|"+scen,
+						fmt.Sprintf("load, set %s = %q, Marshal: git config --get-all %s gives %q, spec (replace-all, case-insensitive keys) says %q", row.Var, newVals, cfgEditGitKey[v], g, want), cs)
+				}
+			}
+		}
+	}
+	r.Distinct += len(rows)
+	r.Extra["edit_cases"] = len(rows)
 	return nil
 }
